@@ -23,7 +23,8 @@
 (*     polls before its first unit (so "its own next poll" exists: at most *)
 (*     one unit per thread is started after the flip);                     *)
 (*   - no sieving stage (setup + at least one unit before the next poll    *)
-(*     in the sequential loops) is entered after some poll returned TRUE.  *)
+(*     in the sequential loops) is entered after some poll returned TRUE   *)
+(*     - or at all, when the predicate was TRUE before the call (k = 0).   *)
 (* Stages that never poll (trial division, rho, P-1, ECM128, linear        *)
 (* algebra) run to their end; a new ecm() level (setup of its prime tables, *)
 (* then curves) must not be entered after the flip either.                 *)
@@ -51,7 +52,9 @@ Step(s, x) ==
                                               THEN {"sieve_stage_after_abort"} ELSE {})]
     [] OTHER -> s
 
-Final(e) == FoldLeft(Step, S0, e.evs)
+\* k = 0: the predicate is TRUE before the call, the flip precedes everything the call does (no stage may be entered
+\* at all, whether or not the code has polled yet)
+Final(e) == FoldLeft(Step, [S0 EXCEPT !.anyTrue = (e.k = 0)], e.evs)
 
 Returned(e) == ~Has(e, "outcome") /\ e.ret \in {"list", "failure"}
 ProductOK(e) == e.ret = "list" => (\A i \in 1..Len(e.list) : IsNat(e.list[i])) /\ Prod(e.list) = e.n
